@@ -1420,7 +1420,7 @@ pub fn compose_case() -> BoxedStrategy<ComposeCase> {
 // ------------------------------------------------------------------------------------------
 
 pub fn run(ctx: &mut Ctx) {
-    ctx.rule = "merge: generated (type in {PlainDate, PlainTime, PlainDateTime, PlainYearMonth} x {with, from_partial}, ZonedDateTime::from_partial_with_provider with UTC / UtcOffset / fixed table zones and an optional matching offset) x receiver (boundary-biased date-times) x every subset of {year, month, monthCode, day, era, eraYear} and of the six time fields x values over the full u8/u16/i32 ranges biased to {0, 1, max, max+1, 255, 65535, -271821, 275760 +-1, i32::MIN/MAX} x month codes {M01..M12, M13, M00, M99, M05L, M12L, M13L, M00L, M01L} x overflow {absent, constrain, reject}, ISO calendar; oracle: reference merge (supplied field else receiver's / type default; monthCode must be M01..M12; month must equal the month code's number; constrain clamps month to 1..=12, day to 1..=days_in_month(resulting year, resulting month), time fields to their maxima, 0 -> 1 for month and day; reject -> RangeError; missing required field / empty record -> TypeError (when a supplied value cannot even be converted - day 0, month 0 - and sits before the missing field in Temporal's alphabetical reading order, either kind is admitted); result inside the supported range of the type else RangeError), plus the model-free law that a field that was not supplied keeps the receiver's value unless the day had to be clamped to the month end. ctor: new / try_new / new_with_overflow of the four plain types against the same regulation. identity: v.with(any subset of v's own fields, month and/or monthCode) == v, empty subset -> TypeError. compose: v.with(p1).with(p2) == v.with(p1 merged p2) whenever the chain succeeds under reject (so nothing was clamped), verdicts and error kinds agree otherwise, and the same chain under constrain gives the same value. non-trivial = at least one field supplied and at least one absent, or a supplied value out of range, or month and monthCode both present.".into();
+    ctx.rule = "merge: [one case in twenty: receiver on the first / last two representable days and a record that lands exactly on, or one unit beyond, a limit] generated (type in {PlainDate, PlainTime, PlainDateTime, PlainYearMonth} x {with, from_partial}, ZonedDateTime::from_partial_with_provider with UTC / UtcOffset / fixed table zones and an optional matching offset) x receiver (boundary-biased date-times) x every subset of {year, month, monthCode, day, era, eraYear} and of the six time fields x values over the full u8/u16/i32 ranges biased to {0, 1, max, max+1, 255, 65535, -271821, 275760 +-1, i32::MIN/MAX} x month codes {M01..M12, M13, M00, M99, M05L, M12L, M13L, M00L, M01L} x overflow {absent, constrain, reject}, ISO calendar; oracle: reference merge (supplied field else receiver's / type default; monthCode must be M01..M12; month must equal the month code's number; constrain clamps month to 1..=12, day to 1..=days_in_month(resulting year, resulting month), time fields to their maxima, 0 -> 1 for month and day; reject -> RangeError; missing required field / empty record -> TypeError (when a supplied value cannot even be converted - day 0, month 0 - and sits before the missing field in Temporal's alphabetical reading order, either kind is admitted); result inside the supported range of the type else RangeError), plus the model-free law that a field that was not supplied keeps the receiver's value unless the day had to be clamped to the month end. ctor: new / try_new / new_with_overflow of the four plain types against the same regulation. identity: v.with(any subset of v's own fields, month and/or monthCode) == v, empty subset -> TypeError. compose: v.with(p1).with(p2) == v.with(p1 merged p2) whenever the chain succeeds under reject (so nothing was clamped), verdicts and error kinds agree otherwise, and the same chain under constrain gives the same value. non-trivial = at least one field supplied and at least one absent, or a supplied value out of range, or month and monthCode both present.".into();
     ctx.assumptions.push("ISO calendar only; era / eraYear on the ISO calendar are executed but not judged (Temporal ignores them for iso8601, the crate defines an ISO era named 'default')".into());
     ctx.note("unjudged classes: (1) any record that supplies era or eraYear (ISO calendar); (2) PlainYearMonth::with with only `day` supplied (Temporal: empty record -> TypeError, crate: record not empty); (3) PlainYearMonth::from_partial under reject with a `day` that is invalid for the month (Temporal ignores day, the crate regulates it as reference day).");
     ctx.note("ZonedDateTime::with is 'Not yet implemented' in the crate and is not exercised; the time zone is always supplied (its absence is outside the date/time field merge).");
